@@ -5,5 +5,8 @@ VARIABLE c
 Init == c \in Cases
 Next == UNCHANGED c
 Spec == Init /\ [][Next]_c
-DesignOK == DesignHolds(c)
+DesignOK == Holds(c)
+\* the exchange sequences only (used to show that the deviation DevAppendLocalNonce violates DesignOK)
+InitSeq == c \in SeqCases
+SpecSeq == InitSeq /\ [][Next]_c
 =============================================================================
